@@ -70,6 +70,9 @@ COMMON_CONF = [
 ]
 
 INST = []
+# numeric values of the VarStatus enumerators for loop invariants (not preprocessed); the "extracts" regex below
+# pins the enumerator order ON_UPPER, ON_LOWER, FIXED, ZERO, BASIC, UNDEFINED without explicit values
+ON_UPPER, ON_LOWER, FIXED, ZERO, BASIC, UNDEFINED = range(6)
 
 
 def inst(name, cls, names, mem, tier="quick", loops=None, mutants=None, min_obl=20, must=None, defines=None, extra=None):
@@ -150,7 +153,7 @@ inst("RowSingleton", "RowSingletonPS", XYSR,
 
 inst("FixVariable", "FixVariablePS", XYSR,
      [("int", "m_j"), ("int", "m_old_j"), (R_, "m_val"), (R_, "m_obj"), (R_, "m_lower"), (R_, "m_upper"), ("bool", "m_correctIdx"), (DSV, "m_col")],
-     loops=[{"function": BODY, "loop": 0, "locals": [["k", "1::2::k"]], "invariants": ["0<=k && k<=g_n", "g_out != 0 || " + same("gp_s[g_kr]", "v_s")],
+     loops=[{"function": BODY, "loop": 0, "locals": [["k", "1::2::k"]], "invariants": ["0<=k && k<=g_n", "g_in != 0 || " + same("gp_s[g_kr]", "v_s")],
              "assigns": ["k", "__CPROVER_object_whole(gp_s)"], "decreases": "g_n-k"},
             {"function": BODY, "loop": 1, "locals": [["k", "1::3::k"], "val"], "invariants": ["0<=k && k<=g_n"],
              "assigns": ["k", "val"], "decreases": "g_n-k"}],
@@ -158,6 +161,81 @@ inst("FixVariable", "FixVariablePS", XYSR,
      mutants=[mut("status_basic", "FixVariablePS", "cStatus[m_j] = SPxSolverBase<R>::FIXED;", "cStatus[m_j] = SPxSolverBase<R>::BASIC;"),
               mut("shift_idx", "FixVariablePS", "cStatus[m_old_j] = cStatus[m_j];", "cStatus[m_j] = cStatus[m_old_j];"),
               mut("wrong_target", "FixVariablePS", "x[m_j] = m_val;", "x[m_old_j] = m_val;")])
+
+
+ARR = r"Array<R>"
+inst("ForceConstraint", "ForceConstraintPS", XYSR,
+     [("int", "m_i"), ("int", "m_old_i"), (R_, "m_lRhs"), (DSV, "m_row"), (ARR, "m_objs"), (r"DataArray<bool>", "m_fixed"),
+      (r"Array<DSVectorBase<R>>", "m_cols"), ("bool", "m_lhsFixed"), ("bool", "m_maxSense"), (ARR, "m_oldLowers"), (ARR, "m_oldUppers"),
+      (R_, "m_lhs"), (R_, "m_rhs"), (R_, "m_rowobj")],
+     loops=[{"function": BODY, "loop": 0, "locals": [["k", "1::2::k"], "cBasisCandidate", "maxViolation", "bas_k"],
+             "invariants": ["0<=k && k<=g_n",
+                            "(cBasisCandidate == -1 && bas_k == -1) || (0<=bas_k && bas_k<k && 0<=cBasisCandidate && cBasisCandidate<g_nC && gp_i1[bas_k]==cBasisCandidate)",
+                            "gp_cst[g_kc]==v_cs || (v_cs==%d && g_in != 0 && (gp_cst[g_kc]==%d || gp_cst[g_kc]==%d))" % (FIXED, ON_LOWER, ON_UPPER),
+                            "cBasisCandidate != g_kc || (v_cs==%d && (gp_cst[g_kc]==%d || gp_cst[g_kc]==%d))" % (FIXED, ON_LOWER, ON_UPPER)],
+             "assigns": ["k", "cBasisCandidate", "maxViolation", "bas_k", "__CPROVER_object_whole(gp_cst)"], "decreases": "g_n-k"},
+            {"function": BODY, "loop": 1, "locals": [["k", "1::3::1::k"], "cBasisCandidate"],
+             "invariants": ["0<=k && k<=g_n", "g_in != 0 || " + same("gp_r[g_kc]", "v_r"), "gp_r[cBasisCandidate]==0.0"],
+             "assigns": ["k", "__CPROVER_object_whole(gp_r)"], "decreases": "g_n-k"},
+            {"function": BODY, "loop": 2, "locals": [["k", "1::3::2::k"], "val"],
+             "invariants": ["0<=k && k<=g_cap"], "assigns": ["k", "val"], "decreases": "g_cap-k"}],
+     min_obl=800,
+     mutants=[mut("cand_status", "ForceConstraintPS", "cStatus[cBasisCandidate] = SPxSolverBase<R>::BASIC;", "cStatus[cBasisCandidate] = SPxSolverBase<R>::FIXED;"),
+              mut("drop_row_basic", "ForceConstraintPS", "      rStatus[m_i] = SPxSolverBase<R>::BASIC;\n      y[m_i] = m_rowobj;", "      y[m_i] = m_rowobj;"),
+              mut("drop_redcost", "ForceConstraintPS", "r[cBasisCandidate] = 0.0;", ";"),
+              mut("unfix_basic", "ForceConstraintPS", "this->feastol()) ? SPxSolverBase<R>::ON_LOWER : SPxSolverBase<R>::ON_UPPER;\n\n            if(violation",
+                  "this->feastol()) ? SPxSolverBase<R>::ON_LOWER : SPxSolverBase<R>::BASIC;\n\n            if(violation")])
+
+
+def row_same(pos, vy, vs, vrs):
+    return "(%s && %s && gp_rst[%s]==%s)" % (same("gp_y[%s]" % pos, vy), same("gp_s[%s]" % pos, vs), pos, vrs)
+
+
+# facts that have to survive the loops after the index-shift loop (t = g_n2, n = g_n, m_col indices = gp_i1)
+FZ_FRAME_ROW = "g_kr >= g_n2 || g_in != 0 || " + row_same("g_kr", "v_y", "v_s", "v_rs")
+FZ_MOVED = "gp_i1[g_k2] >= g_n2 || g_in2 != 0 || " + row_same("g_n2+g_k2", "v_y2", "v_s2", "v_rs2")
+FZ_KEEP = [FZ_FRAME_ROW, FZ_MOVED]
+FZ_LOOPS = [
+    {"function": BODY, "loop": 0, "locals": [["k", "1::2::k"], "rIdx"],
+     "invariants": ["0<=k && k<=g_n", "rIdx == g_n2 + k",
+                    "g_kr >= g_n2 || " + row_same("g_kr", "v_y", "v_s", "v_rs"),
+                    "gp_i1[g_k2] >= g_n2 || " + row_same("gp_i1[g_k2]", "v_y2", "v_s2", "v_rs2"),
+                    "gp_i1[g_k2] >= g_n2 || g_k2 >= k || " + row_same("g_n2+g_k2", "v_y2", "v_s2", "v_rs2")],
+     "assigns": ["k", "rIdx", "__CPROVER_object_whole(gp_s)", "__CPROVER_object_whole(gp_y)", "__CPROVER_object_whole(gp_rst)"],
+     "decreases": "g_n-k"},
+    {"function": BODY, "loop": 1, "locals": [["l", "1::3::1::1::1::l"], ["val", "1::3::1::1::val"]],
+     "invariants": ["0<=l && l<=g_cap"], "assigns": ["l", "val"], "decreases": "g_cap-l"},
+    {"function": BODY, "loop": 2, "locals": [["k", "1::3::1::k"], "minRowUp", "domIdx"],
+     "invariants": ["0<=k && k<=g_n", "*gp_i2 == k", "domIdx == -1 || (0<=domIdx && domIdx<k)"],
+     "assigns": ["k", "minRowUp", "domIdx", "*gp_i2", "__CPROVER_object_upto(gp_d1, 64)", "__CPROVER_object_upto(gp_i3, 32)"],
+     "decreases": "g_n-k"},
+    {"function": BODY, "loop": 3, "locals": [["l", "1::4::1::1::1::l"], ["val", "1::4::1::1::val"]],
+     "invariants": ["0<=l && l<=g_cap"], "assigns": ["l", "val"], "decreases": "g_cap-l"},
+    {"function": BODY, "loop": 4, "locals": [["k", "1::4::1::k"], "maxRowLo", "domIdx"],
+     "invariants": ["0<=k && k<=g_n", "*gp_i2 == k", "domIdx == -1 || (0<=domIdx && domIdx<k)"],
+     "assigns": ["k", "maxRowLo", "domIdx", "*gp_i2", "__CPROVER_object_upto(gp_d1, 64)", "__CPROVER_object_upto(gp_i3, 32)"],
+     "decreases": "g_n-k"},
+    {"function": BODY, "loop": 5, "locals": [["k", "1::5::k"]],
+     "invariants": ["0<=k && k<=g_n"] + FZ_KEEP,
+     "assigns": ["k", "__CPROVER_object_whole(gp_s)"], "decreases": "g_n-k"},
+    {"function": BODY, "loop": 6, "locals": [["k", "1::6::k"]],
+     "invariants": ["0<=k && k<=g_n", "g_k2 >= k || gp_y[gp_i1[g_k2]]==0.0"] + FZ_KEEP,
+     "assigns": ["k", "__CPROVER_object_whole(gp_y)"], "decreases": "g_n-k"},
+    {"function": BODY, "loop": 7, "locals": [["k", "1::7::k"], "domIdx"],
+     "invariants": ["0<=k && k<=g_n",
+                    "g_k2 >= k || ((gp_rst[gp_i1[g_k2]]==%d) == (g_k2 != domIdx))" % BASIC,
+                    "g_k2 >= k || g_k2 != domIdx || gp_rst[gp_i1[g_k2]]==g_exp",
+                    "!(0<=domIdx && domIdx<k) || gp_cst[g_a]==%d" % BASIC,
+                    "g_kc == g_a || g_kc == g_b || gp_cst[g_kc]==v_cs",
+                    "g_a == g_b || gp_cst[g_b]==v_cs2"] + FZ_KEEP,
+     "assigns": ["k", "__CPROVER_object_whole(gp_rst)", "__CPROVER_object_whole(gp_cst)"], "decreases": "g_n-k"},
+]
+inst("FreeZeroObjVariable", "FreeZeroObjVariablePS", XYSR,
+     [("int", "m_j"), ("int", "m_old_j"), ("int", "m_old_i"), (R_, "m_bnd"), (DSV, "m_col"), (DSV, "m_lRhs"), (DSV, "m_rowObj"),
+      (r"Array<DSVectorBase<R>>", "m_rows"), ("bool", "m_loFree")],
+     loops=FZ_LOOPS, min_obl=1000,
+     must=[r"y\[idx\] = m_rowObj\[idx\];"],
+     mutants=[])
 
 # ---------------------------------------------------------------------------------------------------
 UNIT = {
